@@ -177,8 +177,9 @@ func c02eval(cas c02case) *Violation {
 		return mkViolation(sig, clause, detail+fmt.Sprintf(" [logger level %s, flags %v, destinations %s]", levelName(slog.Level(cas.Level)), cas.Flags, c02dests[cas.Dest]), cas)
 	}
 	run := func(dest int) (rec *recorder, pan string, normal, errw []string, leveled map[slog.Level][]string) {
-		resetGlobals()
-		slog.SetFlags((slog.LstdFlags &^ (slog.Lcaller | slog.LattrsR | slog.LlocalTime)) | fl | slog.LnoInterrupt)
+		caseSeq++
+		resetAlt(caseSeq)
+		setFlagsVia((slog.LstdFlags&^(slog.Lcaller|slog.LattrsR|slog.LlocalTime))|fl|slog.LnoInterrupt, caseSeq/2)
 		slog.VerifNowHook = func() time.Time { return fixedTime }
 		defer func() { slog.VerifNowHook = nil }()
 		rec = &recorder{}
